@@ -65,6 +65,14 @@ M = [
  ("c07_pool_size_in_decoder", "C07", "banned-call", "crates/jxl-render/src/filter/gabor.rs",
   "    let width = input.width();\n    let height = input.height();\n    let output_buf = output.buf_mut();",
   "    let width = input.width();\n    let height = input.height();\n    let _single = !pool.is_multithreaded();\n    let output_buf = output.buf_mut();"),
+ ("c01_spline_points_unbounded", "C01", "R-LIMIT-TAINT", "crates/jxl-frame/src/data/spline.rs",
+  "        if acc_num_points > max_num_points {\n            tracing::error!(num_points, max_num_points, \"Too many spline points\");\n            return Err(jxl_bitstream::Error::ProfileConformance(\"too many spline points\").into());\n        }\n",
+  "        let _ = (acc_num_points, max_num_points);\n"),
+ ("c13_alloc_amount_drops_size", "C13", "amount-is-count-times-size", "crates/jxl-grid/src/alloc_tracker.rs",
+  "        let bytes = count * std::mem::size_of::<T>();", "        let bytes = count;"),
+ ("c14_skip_bits_keeps_buf", "C14", "buf-not-cleared-before-skip", "crates/jxl-bitstream/src/bitstream.rs",
+  "        self.num_read_bits += self.remaining_buf_bits;\n        self.buf = 0;\n        self.remaining_buf_bits = 0;",
+  "        self.num_read_bits += self.remaining_buf_bits;\n        self.buf >>= self.remaining_buf_bits;\n        self.remaining_buf_bits = 0;"),
  ("c13_forget_handle", "C13", "leak", "crates/jxl-frame/src/lib.rs",
   "            self.handle = Some(handle);", "            std::mem::forget(handle);"),
 ]
